@@ -201,6 +201,59 @@ def run(ck):
                 ck.fail("convert:%s" % name, "value read under %s differs from the exact conversion of the value supplied under %s" % (u2, u),
                         {"accessor": name, "u": u, "u2": u2, "x": x}, got, want)
             emit("conv %s %s %s" % (u, u2, frac(x)), frac(got), 1e-12)
+    # ---- (i-a) accessors that combine several stored energies (state energies, transition energies, reorganisation energies of a
+    # system-bath interaction): the value read is the exact conversion of the combined internal quantity -------------------
+    from quantarhei.builders.aggregate_states import ElectronicState, VibronicState
+    from quantarhei import SpectralDensity
+
+    def to_int(xv, uu):
+        fu_ = Fraction(float(qunits.conversion_facs_energy[uu]))
+        return (1 / Fraction(xv)) / fu_ if uu == "nm" else Fraction(xv) * fu_
+
+    def from_int(ev, uu):
+        fv_ = Fraction(float(qunits.conversion_facs_energy[uu]))
+        return float((1 / ev) / fv_ if uu == "nm" else ev / fv_)
+
+    cpairs = [(u, v) for u in eunits for v in eunits]
+    if ck.quick:
+        rng.shuffle(cpairs)
+        cpairs = cpairs[:14] + [("1/cm", "nm"), ("nm", "nm"), ("eV", "nm"), ("nm", "1/cm")]
+    for (u, u2) in cpairs:
+        x1, x2, xm = rng.choice([500.0, 12.5, 2.0]), rng.choice([640.0, 16.0, 3.0]), rng.choice([40.0, 1.0, 0.25])
+        if u == "nm":
+            xm = xm * 50.0
+        inpc = {"u": u, "u2": u2, "site_energies": [x1, x2], "mode_energy": xm}
+        try:
+            with energy_units(u):
+                ma, mb = Molecule([0.0, x1]), Molecule([0.0, x2])
+                mdc = Mode(frequency=xm)
+                ma.add_Mode(mdc); mdc.set_nmax(0, 2); mdc.set_nmax(1, 2); mdc.set_HR(1, 0.1)
+                ac_ = Aggregate([ma, mb])
+            ac_.build(mult=2)
+            e1, e2, om_ = to_int(x1, u), to_int(x2, u), to_int(xm, u)
+            Ng = int(ac_.Nb[0]); N1 = int(ac_.Nb[0] + ac_.Nb[1])
+            # first state of the two-exciton band and a state of the one-exciton band, identified by their internal energies
+            Hd = [Fraction(float(v)) for v in numpy.real(numpy.diag(numpy.array(ac_.HH)))]
+            readings = []
+            with energy_units(u2):
+                readings.append(("ElectronicState((1,1)).energy()", float(ElectronicState(ac_, (1, 1)).energy()), e1 + e2))
+                readings.append(("ElectronicState((1,0)).energy(vsig=(1,))", float(ElectronicState(ac_, (1, 0)).energy(vsig=(1,))), e1 + om_))
+                readings.append(("ElectronicState((0,1)).energy()", float(ElectronicState(ac_, (0, 1)).energy()), e2))
+                vs_ = VibronicState(ElectronicState(ac_, (1, 0)), (1,))
+                readings.append(("VibronicState((1,0),(1,)).energy()", float(vs_.energy()), e1 + om_))
+                readings.append(("VibronicState((1,0),(1,)).vibenergy()", float(vs_.vibenergy()), om_))
+                for (nf_, ni_) in ((N1, Ng), (N1, Ng + 1), (Ng + 1, Ng), (Ng, 0)):
+                    if Hd[nf_] != Hd[ni_]:
+                        readings.append(("Aggregate.get_transition(%d,%d)" % (nf_, ni_), float(ac_.get_transition(nf_, ni_)[0]), Hd[nf_] - Hd[ni_]))
+        except Exception as e:
+            ck.fail("accessor:raises:composite", "a composite accessor raised %r" % (e,), inpc)
+            continue
+        for nm_, got_, eint in readings:
+            want_ = from_int(eint, u2)
+            ck.case(("composite", nm_, u, u2, x1, x2, xm), nontrivial=(u != u2), accessor=nm_.split("(")[0], reciprocal=("nm" in (u, u2)))
+            if abs(got_ - want_) > 1e-9 * abs(want_):
+                ck.fail("convert:%s" % nm_.split("(")[0], "value read under %s differs from the exact conversion of the stored quantity (%s)" % (u2, nm_),
+                        dict(inpc, accessor=nm_), got_, want_)
     # ---- (i-b) frequency axes: supplied in one unit, converted to a time axis and back inside another -------------
     from quantarhei import FrequencyAxis
     lin = [u for u in eunits if u != "nm"]
@@ -287,7 +340,118 @@ def run(ck):
         from quantarhei import SpectralDensity
         SpectralDensity(ta, dict(ftype="OverdampedBrownian", reorg=0.01, cortime=50.0, T=300.0)).get_CorrelationFunction()
 
-    libs = [("Aggregate.build", lib_build), ("Aggregate.build(mult=2)", lib_build_mult2), ("get_RelaxationTensor", lib_relax),
+    ta_s = TimeAxis(0.0, 30, 2.0)
+
+    def fresh(nm=2, modes=False, mult=1):
+        mols = []
+        for k in range(nm):
+            ml = Molecule([0.0, 1.0 + 0.1 * k])
+            ml.set_transition_environment((0, 1), cfa)
+            ml.set_dipole(0, 1, [1.0, 0.5 * k, 0.0])
+            if modes and k == 0:
+                md = Mode(frequency=0.05)
+                ml.add_Mode(md)
+                md.set_nmax(0, 2); md.set_nmax(1, 2); md.set_HR(1, 0.3)
+            mols.append(ml)
+        a = Aggregate(mols)
+        for i in range(nm):
+            for j in range(i + 1, nm):
+                a.set_resonance_coupling(i, j, 0.01)
+        a.build(mult=mult)
+        return a
+
+    def lib_diag():
+        a = fresh(mult=2); a.diagonalize()
+
+    def lib_vib():
+        fresh(modes=True)
+
+    def lib_foerster():
+        built.get_RelaxationTensor(ta, relaxation_theory="standard_Foerster")
+
+    def lib_combined():
+        built.get_RelaxationTensor(ta, relaxation_theory="combined_RedfieldFoerster", coupling_cutoff=0.005)
+
+    def lib_relax_ops():
+        built.get_RelaxationTensor(ta, relaxation_theory="standard_Redfield", as_operators=True)
+
+    def lib_rates():
+        from quantarhei.qm import RedfieldRateMatrix, FoersterRateMatrix
+        hh = built.get_Hamiltonian(); sb = built.get_SystemBathInteraction()
+        RedfieldRateMatrix(hh, sb); FoersterRateMatrix(hh, sb)
+
+    def lib_prop():
+        from quantarhei.qm import ReducedDensityMatrixPropagator
+        from quantarhei import ReducedDensityMatrix
+        RT, hh = built.get_RelaxationTensor(ta, relaxation_theory="standard_Redfield")
+        r0 = ReducedDensityMatrix(dim=hh.dim); r0.data[1, 1] = 1.0
+        ReducedDensityMatrixPropagator(ta_s, hh, RT).propagate(r0)
+
+    def lib_eso():
+        from quantarhei import EvolutionSuperOperator
+        RT, hh = built.get_RelaxationTensor(ta, relaxation_theory="standard_Redfield")
+        U = EvolutionSuperOperator(TimeAxis(0.0, 3, 10.0), hh, RT); U.set_dense_dt(2); U.calculate(show_progress=False)
+
+    def lib_sv():
+        from quantarhei import StateVector
+        from quantarhei.qm import StateVectorPropagator
+        hh = built.get_Hamiltonian()
+        StateVectorPropagator(ta_s, hh).propagate(StateVector(data=numpy.array([0.0, 1.0, 0.0])))
+
+    def lib_ft():
+        from quantarhei import DFunction
+        F = DFunction(ta_s, numpy.exp(-numpy.array(ta_s.data) / 10.0)).get_Fourier_transform()
+        F.get_inverse_Fourier_transform()
+
+    def lib_bathft():
+        from quantarhei import SpectralDensity
+        sd_ = SpectralDensity(ta, dict(ftype="OverdampedBrownian", reorg=0.01, cortime=50.0, T=300.0))
+        sd_.get_FTCorrelationFunction()
+        c_ = CorrelationFunction(ta, dict(ftype="OverdampedBrownian", reorg=0.01, cortime=50.0, T=300.0))
+        c_.get_SpectralDensity(); c_.get_FTCorrelationFunction()
+        c_.measure_reorganization_energy()
+
+    def lib_states():
+        built.get_DensityMatrix(condition_type="thermal_excited_state", relaxation_theory_limit="strong_coupling", temperature=100.0)
+        built.get_DensityMatrix(condition_type="impulsive_excitation")
+        built.get_thermal_ReducedDensityMatrix()
+        built.get_excited_density_matrix(condition="delta")
+
+    def lib_save():
+        import tempfile, os as _os
+        from quantarhei import load_parcel
+        d_ = tempfile.mkdtemp()
+        try:
+            fn_ = _os.path.join(d_, "x.qrp")
+            built.get_Hamiltonian().save(fn_); load_parcel(fn_)
+            cfa.save(fn_); load_parcel(fn_)
+        finally:
+            import shutil as _sh
+            _sh.rmtree(d_, ignore_errors=True)
+
+    def lib_basis():
+        from quantarhei import eigenbasis_of
+        hh = built.get_Hamiltonian()
+        with eigenbasis_of(hh):
+            hh.data
+        hh.diagonalize(); hh.undiagonalize() if hasattr(hh, "undiagonalize") else None
+
+    def lib_molham():
+        mol_a.get_Hamiltonian(); mol_a.get_energy(1); mol_a.get_TransitionDipoleMoment()
+
+    def lib_dipdip():
+        a = Aggregate([Molecule([0.0, 1.0]), Molecule([0.0, 1.2])])
+        for k_, ml in enumerate(a.monomers):
+            ml.set_dipole(0, 1, [1.0, 0.0, 0.0]); ml.position = numpy.array([10.0 * k_, 0.0, 0.0])
+        a.set_coupling_by_dipole_dipole(epsr=2.0); a.build()
+
+    libs = [("Aggregate.diagonalize", lib_diag), ("Aggregate.build(with modes)", lib_vib), ("get_RelaxationTensor(Foerster)", lib_foerster),
+            ("get_RelaxationTensor(combined)", lib_combined), ("get_RelaxationTensor(as_operators)", lib_relax_ops),
+            ("RedfieldRateMatrix/FoersterRateMatrix", lib_rates), ("ReducedDensityMatrixPropagator.propagate", lib_prop),
+            ("EvolutionSuperOperator.calculate", lib_eso), ("StateVectorPropagator.propagate", lib_sv), ("DFunction Fourier transforms", lib_ft),
+            ("bath function transforms", lib_bathft), ("initial states", lib_states), ("save/load_parcel", lib_save),
+            ("eigenbasis_of/diagonalize", lib_basis), ("Molecule getters", lib_molham), ("set_coupling_by_dipole_dipole", lib_dipdip)]
+    libs += [("Aggregate.build", lib_build), ("Aggregate.build(mult=2)", lib_build_mult2), ("get_RelaxationTensor", lib_relax),
             ("get_RelaxationTensor(time_dependent)", lib_relax_td), ("get_Hamiltonian.data", lib_ham), ("CorrelationFunction+", lib_cf),
             ("TimeAxis.get_FrequencyAxis", lib_faxis), ("convert", lib_convert), ("AbsSpectrumCalculator.calculate", lib_abs),
             ("get_DensityMatrix", lib_dm), ("SpectralDensity.get_CorrelationFunction", lib_sd)]
@@ -370,6 +534,33 @@ def run(ck):
                     out = "refused "
                 emit("rawset furlong", out + state())
 
+    # every library call once per run whatever the seed: inside a context of another unit and outside any context
+    for li, (name, f) in enumerate(libs):
+        for ctxu in ("1/cm", None, "eV"):
+            m.current_units["energy"] = "1/fs"; m._in_eu_count = 0; m._in_energy_units_context = False
+            try:
+                if ctxu:
+                    with energy_units(ctxu):
+                        before = state()
+                        try:
+                            f()
+                        except Exception as e:
+                            ck.extra.setdefault("library_call_errors", {})[name] = repr(e)[:200]
+                        after = state()
+                else:
+                    before = state()
+                    try:
+                        f()
+                    except Exception as e:
+                        ck.extra.setdefault("library_call_errors", {})[name] = repr(e)[:200]
+                    after = state()
+            except Exception as e:
+                ck.extra.setdefault("library_call_errors", {})[name] = repr(e)[:200]
+                continue
+            ck.case(("libcall", name, ctxu), nontrivial=bool(ctxu), accessor="library-call")
+            if before != after:
+                ck.fail("call:%s" % name, "library call changed the active units of its caller", {"call": name, "inside_energy_units": ctxu}, after, before)
+    m.current_units["energy"] = "1/fs"; m._in_eu_count = 0; m._in_energy_units_context = False
     for h in range(ck.n(40, 600)):
         start = rng.choice(["1/fs", "1/cm", "int", "eV"])
         m.current_units["energy"] = start
